@@ -161,7 +161,23 @@ func main() {
 		}
 		var pid int
 		var err error
-		if c["nosetpcap"] == true {
+		if c["split_ids"] == true {
+			// the launching thread has real ids 1000 and effective / saved ids 0 (a set-uid-root launcher): the program must
+			// end up with every id it was asked to have, not only the real ones
+			done := make(chan struct{})
+			go func() {
+				runtime.LockOSThread() // never unlocked: the thread ends with this goroutine
+				if _, _, e := syscall.RawSyscall(syscall.SYS_SETRESGID, 1000, 0, 0); e != 0 {
+					out["harness_err"] = "setresgid: " + e.Error()
+				} else if _, _, e := syscall.RawSyscall(syscall.SYS_SETRESUID, 1000, 0, 0); e != 0 {
+					out["harness_err"] = "setresuid: " + e.Error()
+				} else {
+					pid, err = r.Start()
+				}
+				close(done)
+			}()
+			<-done
+		} else if c["nosetpcap"] == true {
 			// the launching thread is root with every capability but CAP_SETPCAP: locking the secure bits is refused in the child
 			done := make(chan struct{})
 			go func() {
